@@ -1,0 +1,96 @@
+//! Verification hooks (C45), compiled only with `--cfg libp2p_verif`.
+//!
+//! `handler::Event`, `OutboundMessage`'s id and the request-id newtypes are crate-private; a
+//! behaviour-level harness needs to build handler events and to read the ids back.  Everything
+//! here only constructs existing enum values / reads existing fields.
+
+use futures::channel::oneshot;
+
+use crate::{Codec, InboundRequestId, OutboundRequestId, handler};
+
+pub fn outbound_id(id: u64) -> OutboundRequestId {
+    OutboundRequestId(id)
+}
+
+pub fn inbound_id(id: u64) -> InboundRequestId {
+    InboundRequestId(id)
+}
+
+/// The request id carried by a `NotifyHandler` event.
+pub fn message_id<C: Codec>(m: &handler::OutboundMessage<C>) -> u64 {
+    m.request_id.0
+}
+
+pub fn ev_response<C: Codec>(id: u64, response: C::Response) -> handler::Event<C> {
+    handler::Event::Response {
+        request_id: OutboundRequestId(id),
+        response,
+    }
+}
+
+/// `Event::Request`; the receiving half of the response channel is returned to the caller
+/// (the real handler keeps it inside the stream task).
+pub fn ev_request<C: Codec>(
+    id: u64,
+    request: C::Request,
+) -> (handler::Event<C>, oneshot::Receiver<C::Response>) {
+    let (sender, receiver) = oneshot::channel();
+    (
+        handler::Event::Request {
+            request_id: InboundRequestId(id),
+            request,
+            sender,
+        },
+        receiver,
+    )
+}
+
+pub fn ev_response_sent<C: Codec>(id: u64) -> handler::Event<C> {
+    handler::Event::ResponseSent(InboundRequestId(id))
+}
+
+pub fn ev_response_omission<C: Codec>(id: u64) -> handler::Event<C> {
+    handler::Event::ResponseOmission(InboundRequestId(id))
+}
+
+pub fn ev_outbound_timeout<C: Codec>(id: u64) -> handler::Event<C> {
+    handler::Event::OutboundTimeout(OutboundRequestId(id))
+}
+
+pub fn ev_outbound_unsupported<C: Codec>(id: u64) -> handler::Event<C> {
+    handler::Event::OutboundUnsupportedProtocols(OutboundRequestId(id))
+}
+
+pub fn ev_outbound_stream_failed<C: Codec>(id: u64, error: std::io::Error) -> handler::Event<C> {
+    handler::Event::OutboundStreamFailed {
+        request_id: OutboundRequestId(id),
+        error,
+    }
+}
+
+pub fn ev_inbound_timeout<C: Codec>(id: u64) -> handler::Event<C> {
+    handler::Event::InboundTimeout(InboundRequestId(id))
+}
+
+pub fn ev_inbound_stream_failed<C: Codec>(id: u64, error: std::io::Error) -> handler::Event<C> {
+    handler::Event::InboundStreamFailed {
+        request_id: InboundRequestId(id),
+        error,
+    }
+}
+
+/// Kind and id of a handler event (to drive the behaviour with events produced by a real
+/// `Handler`): `(kind, id)`.
+pub fn ev_kind<C: Codec>(e: &handler::Event<C>) -> (&'static str, u64) {
+    match e {
+        handler::Event::Request { request_id, .. } => ("request", request_id.0),
+        handler::Event::Response { request_id, .. } => ("response", request_id.0),
+        handler::Event::ResponseSent(id) => ("responseSent", id.0),
+        handler::Event::ResponseOmission(id) => ("omission", id.0),
+        handler::Event::OutboundTimeout(id) => ("outTimeout", id.0),
+        handler::Event::OutboundUnsupportedProtocols(id) => ("outUnsupported", id.0),
+        handler::Event::OutboundStreamFailed { request_id, .. } => ("outStreamFailed", request_id.0),
+        handler::Event::InboundTimeout(id) => ("inTimeout", id.0),
+        handler::Event::InboundStreamFailed { request_id, .. } => ("inStreamFailed", request_id.0),
+    }
+}
